@@ -148,6 +148,8 @@ pub struct Gen {
     faults_enabled: bool,
     cycles_left: usize,
     bg_groups: usize,
+    /// warm-up cycles that leave their group alive (runs under group-slot pressure)
+    pressure_left: usize,
 }
 
 pub fn pick_cfg(rng: &mut Rng, prop: &str, tier_thorough: bool) -> Cfg {
@@ -156,10 +158,10 @@ pub fn pick_cfg(rng: &mut Rng, prop: &str, tier_thorough: bool) -> Cfg {
         "C06" => rng.range(32, if tier_thorough { 256 } else { 96 }),
         "C11" => rng.range(4, 40),
         _ => {
-            if rng.chance(60, 100) {
+            if rng.chance(50, 100) {
                 rng.range(2, 16)
             } else if rng.chance(80, 100) {
-                rng.range(17, 64)
+                rng.range(17, 80)
             } else {
                 rng.range(65, 256)
             }
@@ -256,6 +258,8 @@ impl Gen {
             wkinds.push(3);
         }
         let bg_groups = rng.below(14);
+        let pressure = cfg.cap >= 40 && rng.chance(1, 3);
+        let pressure_left = if pressure { rng.range(10, 14) } else { 0 };
         Self {
             prop: prop.to_string(),
             cfg,
@@ -274,7 +278,8 @@ impl Gen {
             max_insts: rng.range(1, 4),
             faults_enabled,
             cycles_left: 0,
-            bg_groups,
+            bg_groups: if pressure { 13 } else { bg_groups },
+            pressure_left,
             rng,
         }
     }
@@ -425,10 +430,31 @@ impl Gen {
             }
             return Some(Step::Empty { i: view.free_slot()? });
         }
+        if self.pressure_left > 0 {
+            // group-slot pressure: first fill the slot table with groups that stay alive
+            let i = targets[0];
+            let mi = &view.insts[i].as_ref().unwrap().m;
+            if !mi.adoptive && mi.groups_alive() < MAX_GROUPS {
+                self.pressure_left -= 1;
+                if let Some(s) = self.cycle_with(view, i, Some(true)) {
+                    return Some(s);
+                }
+            } else {
+                self.pressure_left = 0;
+            }
+        }
         let kind = KINDS[self.rng.weighted(&self.weights)];
         let i = *self.rng.pick(&targets);
         let inst = view.insts[i].as_ref().unwrap();
         let m = &inst.m;
+        if m.adoptive
+            && !matches!(
+                kind,
+                Kind::Put | Kind::Data | Kind::Clone | Kind::DropInst | Kind::Save | Kind::Slice | Kind::DrainClone | Kind::Reseed | Kind::Load | Kind::Crash
+            )
+        {
+            return None;
+        }
         match kind {
             Kind::Add => {
                 let v = match self.rng.below(10) {
@@ -576,7 +602,8 @@ impl Gen {
                 }
                 let n = self.rng.range(2, 6);
                 let seeds = (0..n).map(|_| self.rng.next_u64()).collect();
-                Some(Step::Slice { src: i, v: view.name(v), pred, seeds })
+                let keep = if self.rng.chance(1, 3) && view.live().len() <= self.max_insts { view.free_slot() } else { None };
+                Some(Step::Slice { src: i, v: view.name(v), pred, seeds, keep })
             }
             Kind::Merge => {
                 // needs two free slots for its own pair of trees
@@ -644,10 +671,14 @@ impl Gen {
 
     /// One create–fill–put–(overwrite)–read cycle (C06), emitted as a queue.
     fn cycle(&mut self, view: &View, i: usize) -> Option<Step> {
+        self.cycle_with(view, i, None)
+    }
+
+    fn cycle_with(&mut self, view: &View, i: usize, force_bg: Option<bool>) -> Option<Step> {
         let m = &view.insts[i].as_ref().unwrap().m;
         // keep some background groups alive first
         let want_bg = self.bg_groups.min(MAX_GROUPS - 1);
-        let make_bg = m.groups_alive() < want_bg && self.rng.chance(1, 2);
+        let make_bg = force_bg.unwrap_or(m.groups_alive() < want_bg && self.rng.chance(1, 2));
         if m.groups_alive() >= MAX_GROUPS {
             // full: read something so a group can die
             let unread = m.unread_ids();
@@ -755,7 +786,41 @@ impl Gen {
             11 => Oob::BindAbsent(self.pick_absent(m)?, p(self)?),
             12 => Oob::BindSelf(p(self)?),
             13 => Oob::NextIdExhausted,
-            14 => Oob::Group15(p(self)?, p(self)?),
+            14 => {
+                // fill the slot table to 14 live groups, then a burst of binds between ungrouped
+                // vertices (high ids first), then copy and save the result
+                let mut absent: Vec<usize> = (0..m.cap).filter(|v| !m.is_present(*v)).collect();
+                absent.reverse();
+                let missing = MAX_GROUPS.saturating_sub(m.groups_alive());
+                let n = self.rng.range(17, 24);
+                if absent.len() >= 2 * (missing + n) {
+                    let l = self.label();
+                    let mut it = absent.into_iter();
+                    let mut low: Vec<usize> = Vec::new();
+                    for _ in 0..(2 * n) {
+                        low.push(it.next().unwrap());
+                    }
+                    for _ in 0..missing {
+                        let (a, b) = (it.next().unwrap(), it.next().unwrap());
+                        self.queue.push_back(Step::Add { i, v: Id::L(a) });
+                        self.queue.push_back(Step::Add { i, v: Id::L(b) });
+                        self.queue.push_back(Step::Bind { i, a: Id::L(a), b: Id::L(b), l: l.clone() });
+                    }
+                    for k in 0..n {
+                        let (a, b) = (low[2 * k], low[2 * k + 1]);
+                        self.queue.push_back(Step::Add { i, v: Id::L(a) });
+                        self.queue.push_back(Step::Add { i, v: Id::L(b) });
+                        let (x, y) = if self.rng.chance(1, 2) { (a, b) } else { (b, a) };
+                        self.queue.push_back(Step::Oob { i, call: Oob::Group15(Id::L(x), Id::L(y)) });
+                    }
+                    if let Some(dst) = view.free_slot() {
+                        self.queue.push_back(Step::Clone { src: i, dst, link: false });
+                    }
+                    self.queue.push_back(Step::Save { i, path: self.rng.below(PATHS), fault: WFault::None });
+                    return self.queue.pop_front();
+                }
+                Oob::Group15(p(self)?, p(self)?)
+            }
             15 => Oob::SliceAbsent(self.pick_absent(m)?),
             _ => {
                 let others: Vec<usize> = view.live().into_iter().filter(|x| *x != i).collect();
